@@ -44,6 +44,19 @@ def check_config(cfg, w, rep):
                     rep.violation("a-flags:%s" % fn_key(lf), "`%s` opens the bucket with %s: records of earlier writes can be overwritten or dropped" % (short(p), fl),
                                   loc=e.loc(), config=cfg, rule="a-append-only")
     rep.floor("insert_open_sites", n_open, 2 if is_async else 1, cfg)
+    # every successful insert appends: the most recent write is always the last record of its key
+    for p in R.index_inserts:
+        lf = prog.fns[p]
+        body_ = lf.body
+        cut = {e.blk for e in w.own_effects(lf) if e.kind == "WriteData" and e.flags.get("op") in ("write_all", "write") and e.body is body_}
+        succ = [rd for rd in ret_defs(prog, body_) if rd.cls in ("success", "unknown", "delegated")]
+        reach = prog.cfg(body_).reachable(0, cut_nodes=cut)
+        badr = [rd for rd in succ if rd.blk in reach]
+        if badr or not cut:
+            rep.violation("a-skipped-append:%s" % fn_key(lf), "`%s` can report success without appending a record: the most recent write would not be the last record of its key" % short(p),
+                          loc=blk_loc(body_, badr[0].blk) if badr else body_.loc(), config=cfg, rule="a-append-only")
+        else:
+            rep.ob(cfg, "a-append-only", fn_key(lf) + ".always", "`%s` appends a record on every success path" % short(p))
 
     # ---- (b) decision table of every lookup ----
     finds = sorted(find_fns(w))
